@@ -819,7 +819,7 @@ func (v *Verifier) runReplayFile(file string, fn *ssa.Function) ReplayResult {
 		return res
 	}
 	rel := strings.TrimPrefix(strings.TrimPrefix(pkgPath, "github.com/biogo/hts"), "/")
-	dir := filepath.Join(repoDir, rel)
+	dir := filepath.Join(activeRepoDir, rel)
 	tmp, err := os.MkdirTemp("", "hvc-replay-")
 	if err != nil {
 		res.Detail = err.Error()
